@@ -770,6 +770,7 @@ fn family_binding(opts: &Opts, sink: Sink) {
             // the global script runs before any state is entered; whether top-level data already have
             // their values then under late binding is not stated by the property: early binding only
             if variant % 2 == 1 && !late {
+                // (rfsm-expression syntax; the ecmascript slice replaces it)
                 d.script = Some(Expr::Raw("r ?= 1".into()));
             }
             for s in [a, b, b1, b2, c, c1, c2] {
@@ -897,6 +898,26 @@ fn families(ctx: &Ctx, sink: Sink) {
                 }
             }
         }
+        "C09" if ctx.has("--ecma") => {
+            // ecmascript slice (full-feature build only): the same In() and binding families with
+            // datamodel="ecmascript"
+            let o = Opts::default();
+            let n = if thorough { 4 } else { 3 };
+            let mut ecma = |mut it: Item| {
+                it.doc.datamodel = "ecmascript".into();
+                if it.doc.script.is_some() {
+                    it.doc.script = Some(Expr::Raw("var zz = r".into()));
+                }
+                it.label = format!("ecmascript {}", it.label);
+                sink(it)
+            };
+            family_in_marks(n, &o, &mut ecma);
+            family_in_guards(n, "ecmascript", &o, &mut ecma);
+            family_binding(&o, &mut ecma);
+            sink(scenario_item("event-fields@ecmascript", ""));
+            sink(scenario_item("readonly@ecmascript", ""));
+            sink(scenario_item("readonly@ecmascript-nonstrict", ""));
+        }
         "C09" => {
             let o = Opts::default();
             family_in_marks(if thorough { 4 } else { 3 }, &o, sink);
@@ -905,6 +926,28 @@ fn families(ctx: &Ctx, sink: Sink) {
             family_binding(&o, sink);
             sink(scenario_item("event-fields", ""));
             sink(scenario_item("readonly", ""));
+        }
+        "C08" if ctx.has("--ecma") => {
+            let o = Opts {
+                extra_events: vec![],
+                max_states: 40,
+                ..Opts::default()
+            };
+            let mut ecma = |mut it: Item| {
+                it.doc.datamodel = "ecmascript".into();
+                it.label = format!("ecmascript {}", it.label);
+                sink(it)
+            };
+            // quick tier: the listed sub-family of every 6th document (the script engine makes a
+            // session start ~10x as expensive); thorough: all of them
+            let mut k = 0usize;
+            let mut sub = |it: Item| {
+                k += 1;
+                if thorough || k % 6 == 1 {
+                    ecma(it)
+                }
+            };
+            family_content(thorough, &o, &mut sub);
         }
         "C08" => {
             let o = Opts {
@@ -940,20 +983,21 @@ fn ev_with(name: &str, params: Option<Vec<(&str, Data)>>, content: Option<Data>,
     }
 }
 
-fn opt_show(o: &Option<String>) -> String {
-    o.clone().unwrap_or_else(|| "null".to_string())
+/// an absent optional field reads as null in rfsm-expression and as undefined (rendered "") in ecmascript
+fn opt_show(o: &Option<String>, dm: &str) -> String {
+    o.clone().unwrap_or_else(|| if dm == "ecmascript" { String::new() } else { "null".to_string() })
 }
 
 /// C09: _event exposes the fields of the event being processed, unchanged (reference-free oracle:
 /// the values read through _event are compared with the event object the interpreter received).
-fn scenario_event_fields(ctx: &Ctx, out: &mut WorkerOut, index: usize) {
+fn scenario_event_fields(ctx: &Ctx, out: &mut WorkerOut, index: usize, dm: &str) {
     let fields = ["name", "type", "sendid", "origin", "origintype", "invokeid"];
     let mut marks = String::new();
     for f in fields {
         marks.push_str(&format!("<log expr=\"mark('f','{}',_event.{})\"/>", f, f));
     }
     let xml = format!(
-        r##"<scxml {ns} datamodel="rfsm-expression" name="evf">
+        r##"<scxml {ns} datamodel="{dm}" name="evf">
 <datamodel><data id="v" expr="41"/></datamodel>
 <parallel id="p">
  <state id="obs"><transition event="*">{marks}</transition></state>
@@ -970,6 +1014,7 @@ fn scenario_event_fields(ctx: &Ctx, out: &mut WorkerOut, index: usize) {
 </parallel>
 </scxml>"##,
         ns = XMLNS,
+        dm = dm,
         marks = marks
     );
     let events: Vec<Event> = vec![
@@ -1032,10 +1077,10 @@ fn scenario_event_fields(ctx: &Ctx, out: &mut WorkerOut, index: usize) {
                     let exp = match args[1].as_str() {
                         "name" => e.name.clone(),
                         "type" => e.etype.clone(),
-                        "sendid" => opt_show(&e.sendid),
-                        "origin" => opt_show(&e.origin),
-                        "origintype" => opt_show(&e.origintype),
-                        _ => opt_show(&e.invokeid),
+                        "sendid" => opt_show(&e.sendid, dm),
+                        "origin" => opt_show(&e.origin, dm),
+                        "origintype" => opt_show(&e.origintype, dm),
+                        _ => opt_show(&e.invokeid, dm),
                     };
                     checked += 1;
                     if exp != args[2] {
@@ -1094,8 +1139,8 @@ fn scenario_event_fields(ctx: &Ctx, out: &mut WorkerOut, index: usize) {
 }
 
 /// C09: system variables can not be modified: every attempt raises error.execution and changes nothing.
-fn scenario_readonly(ctx: &Ctx, out: &mut WorkerOut, index: usize) {
-    let attempts: Vec<(&str, String)> = vec![
+fn scenario_readonly(ctx: &Ctx, out: &mut WorkerOut, index: usize, dm: &str) {
+    let mut attempts: Vec<(&str, String)> = vec![
         ("none", "".into()),
         ("assign:_sessionid", "<assign location=\"_sessionid\" expr=\"7\"/>".into()),
         ("assign:_name", "<assign location=\"_name\" expr=\"'x'\"/>".into()),
@@ -1116,12 +1161,23 @@ fn scenario_readonly(ctx: &Ctx, out: &mut WorkerOut, index: usize) {
         ("script-init:_sessionid", "<script>_sessionid ?= 7</script>".into()),
         ("script-init:_event.name", "<script>_event.name ?= 'hacked'</script>".into()),
     ];
+    let nonstrict = dm == "ecmascript-nonstrict";
+    let dm = if nonstrict { "ecmascript" } else { dm };
+    if dm != "rfsm-expression" {
+        // '?=' is rfsm-expression syntax
+        attempts.retain(|(n, _)| !n.starts_with("script-init:"));
+    }
+    let iodef = if dm == "rfsm-expression" {
+        "isDefined(_ioprocessors.scxml.location)"
+    } else {
+        "typeof _ioprocessors.scxml.location == 'string'"
+    };
     let mut trans = String::new();
     for (i, (_, a)) in attempts.iter().enumerate() {
         trans.push_str(&format!("<transition event=\"a{}\" target=\"t\">{}</transition>\n", i, a));
     }
     let xml = format!(
-        r#"<scxml {ns} datamodel="rfsm-expression" name="thename">
+        r#"<scxml {ns} datamodel="{dm}" name="thename">
 <state id="s">{trans}</state>
 <state id="t">
  <onentry>
@@ -1132,12 +1188,14 @@ fn scenario_readonly(ctx: &Ctx, out: &mut WorkerOut, index: usize) {
   <log expr="mark('rb','_event.sendid',_event.sendid)"/>
   <log expr="mark('rb','_event.origin',_event.origin)"/>
   <log expr="mark('rb','_event.data',_event.data)"/>
-  <log expr="mark('rb','_ioprocessors', isDefined(_ioprocessors.scxml.location))"/>
+  <log expr="mark('rb','_ioprocessors', {iodef})"/>
  </onentry>
  <transition event="back" target="s"/>
 </state>
 </scxml>"#,
         ns = XMLNS,
+        dm = dm,
+        iodef = iodef,
         trans = trans
     );
     let mut run = match Run::start(&xml, std::time::Duration::from_secs(20)) {
@@ -1199,10 +1257,13 @@ fn scenario_readonly(ctx: &Ctx, out: &mut WorkerOut, index: usize) {
         checked += 1;
         let kind = name.to_string();
         if ne != 1 {
+            // default (non-strict) ecmascript: one signature for "write silently ignored"; a value that
+            // actually changes is reported below under its own signature in either mode
+            let sig = if nonstrict && ne == 0 { "readonly:ecmascript-nonstrict:write-silently-ignored".to_string() } else { format!("readonly:{}:errors={}", kind, ne) };
             out.violation(
                 ctx,
                 "write-to-system-variable-no-error",
-                &format!("readonly:{}:errors={}", kind, ne),
+                &sig,
                 &format!("attempt {} raised {} error.execution events (expected exactly 1)", name, ne),
                 json!({"engine":"e1","index": index, "xml": xml, "attempt": name}),
             );
@@ -1484,8 +1545,15 @@ fn run_scenario(ctx: &Ctx, out: &mut WorkerOut, index: usize, name: &str, _label
         return;
     }
     match name {
-        "event-fields" => scenario_event_fields(ctx, out, index),
-        "readonly" => scenario_readonly(ctx, out, index),
+        "event-fields" => scenario_event_fields(ctx, out, index, "rfsm-expression"),
+        "readonly" => scenario_readonly(ctx, out, index, "rfsm-expression"),
+        "event-fields@ecmascript" => scenario_event_fields(ctx, out, index, "ecmascript"),
+        "readonly@ecmascript" => scenario_readonly(ctx, out, index, "ecmascript"),
+        "readonly@ecmascript-nonstrict" => {
+            vh::runner::ECMA_STRICT.store(false, std::sync::atomic::Ordering::Relaxed);
+            scenario_readonly(ctx, out, index, "ecmascript-nonstrict");
+            vh::runner::ECMA_STRICT.store(true, std::sync::atomic::Ordering::Relaxed);
+        }
         _ => panic!("unknown scenario {}", name),
     }
 }
@@ -1588,10 +1656,8 @@ fn replay(ctx: &Ctx, path: &str) -> i32 {
     let index = v["index"].as_u64().unwrap() as usize;
     let history: Vec<String> = v["history"]
         .as_array()
-        .unwrap()
-        .iter()
-        .map(|x| x.as_str().unwrap().to_string())
-        .collect();
+        .map(|a| a.iter().map(|x| x.as_str().unwrap().to_string()).collect())
+        .unwrap_or_default();
     let mut found = None;
     let mut i = 0usize;
     families(ctx, &mut |item: Item| {
@@ -1601,6 +1667,28 @@ fn replay(ctx: &Ctx, path: &str) -> i32 {
         i += 1;
     });
     let item = found.expect("item index not in family");
+    if let Some(sc) = &item.opts.scenario {
+        // scripted scenario: re-run it twice; reproduced if the recorded signature shows up again
+        let want = v["signature"].as_str().unwrap_or("").to_string();
+        let mut rc = 0;
+        for round in 0..2 {
+            let mut out = WorkerOut::default();
+            let rctx = Ctx { worker: Some(99), ..parse_args() };
+            run_scenario(&rctx, &mut out, index, sc, &item.label);
+            let hit = out.violations.iter().any(|x| x["sig"].as_str() == Some(want.as_str()));
+            eprintln!("round {}: scenario {} -> {} violations, recorded signature {}", round, sc, out.violations.len(), if hit { "reproduced" } else { "not reproduced" });
+            for x in &out.violations {
+                eprintln!("  clause={} sig={}\n  {}", x["clause"], x["sig"], x["detail"]);
+            }
+            if hit {
+                rc = 1;
+            }
+        }
+        if rc == 1 {
+            println!("VIOLATION property={} replay={}", ctx.prop, path);
+        }
+        return rc;
+    }
     eprintln!("replaying item #{} {}\nhistory {:?}\n{}", index, item.label, history, item.doc.to_xml());
     let mut rc = 0;
     for round in 0..2 {
@@ -1622,6 +1710,9 @@ fn replay(ctx: &Ctx, path: &str) -> i32 {
 
 fn main() {
     let ctx = parse_args();
+    if ctx.has("--ecma") {
+        vh::runner::ECMA_STRICT.store(true, std::sync::atomic::Ordering::Relaxed);
+    }
     if let Some(p) = &ctx.replay {
         std::process::exit(replay(&ctx, p));
     }
